@@ -485,6 +485,33 @@ func (e *Engine) solveSet(o *checkOpts, obls []*Obligation) {
 	}
 	close(ch2)
 	wg2.Wait()
+	// phase C: whatever is still undecided (no proof, no model) is tried once more on an otherwise idle machine,
+	// one obligation at a time with a larger budget, so that a verdict never depends on the load of the host.
+	// Bounded to one minute in total; obligations not reached keep their phase B verdict.
+	deadline := time.Now().Add(60 * time.Second)
+	for _, ob := range retry {
+		if ob.Result.Status == "unsat" || ob.Result.Status == "sat" || ob.Vacuity {
+			continue
+		}
+		if time.Now().After(deadline) {
+			break
+		}
+		// only verdicts that may be load dependent: some solver ran into (close to) its time limit
+		slow := false
+		for _, t := range ob.Tried {
+			if t.Status == "timeout" || t.Status == "error" || t.Seconds >= 0.5*o.timeout.Seconds()/3 {
+				slow = true
+			}
+		}
+		if !slow {
+			continue
+		}
+		r, tried := solve(ob.FullScript(), 2*o.timeout, true)
+		ob.Tried = append(ob.Tried, tried...)
+		if r.Status == "unsat" || r.Status == "sat" {
+			ob.Result = r
+		}
+	}
 	if o.verbose {
 		for _, ob := range retry {
 			var tried []string
